@@ -295,6 +295,8 @@ class ApiMergeStoreHandler(NbdimeHandler, APIHandler):
         # Serialize before opening the file, so that an invalid notebook
         # does not truncate the existing output file
         content = nbformat.writes(merged_nb)
+        # ... and check that it can be encoded (unpaired surrogates cannot)
+        content.encode('utf8')
         with io.open(path, 'w', encoding='utf8') as f:
             f.write(content)
             if not content.endswith(u'\n'):
